@@ -744,8 +744,116 @@ theorem reports_status (s : Status) (hs : s ≠ .unknown) (es : List Event) (h :
   · exact closedReports_status s hs [] es (by simpa using h) r hr
   · exact openReports_status s hs [] es (by simpa using h) r hr
 
+/-! ## consumers that raise -/
+theorem step_out (t : Tbl) (e : Event) : (step t e).2 = [] ∨ ∃ p, (step t e).2 = [p] := by
+  simp only [step]
+  split
+  · exact Or.inl rfl
+  · split
+    · exact Or.inr ⟨_, rfl⟩
+    · exact Or.inl rfl
+
+/-- what is handed over and what is left in the table does not depend on where the callback raises: the record is
+popped before the callback runs -/
+theorem runF_eq (faults : List Nat) : ∀ (es : List Event) (s : FSt) (i : Nat),
+    (runF faults s i es).1.tbl = (run s.tbl es).1
+    ∧ (runF faults s i es).2.1 = (run s.tbl es).2.map (·.2)
+    ∧ (runF faults s i es).1.n = s.n + (run s.tbl es).2.length
+  | [], s, i => by simp [runF, run]
+  | e :: es, s, i => by
+      simp only [runF, run, statusF]
+      rcases step_out s.tbl e with h | ⟨p, h⟩
+      · obtain ⟨h1, h2, h3⟩ := runF_eq faults es { tbl := (step s.tbl e).1, n := s.n } (i + 1)
+        simp only [h] at h1 h2 h3 ⊢
+        exact ⟨h1, by simpa using h2, by simpa using h3⟩
+      · obtain ⟨h1, h2, h3⟩ := runF_eq faults es { tbl := (step s.tbl e).1, n := s.n + 1 } (i + 1)
+        simp only [h] at h1 h2 h3 ⊢
+        refine ⟨h1, by simpa using h2, ?_⟩
+        simp only [List.length_cons, List.length_append, List.length_nil] at h3 ⊢
+        omega
+
+/-- one `stopTestRun()` call hands over a prefix (in `popitem()` order) of what is in the table and leaves the rest
+there; it raises only after handing over at least one record, and when it returns normally nothing is left -/
+theorem stopLoop_split (faults : List Nat) : ∀ (l : List (Key × Report)) (n : Nat),
+    (stopLoop faults l n).1 ++ (stopLoop faults l n).2.1.map (fun p => ({ p.2 with ts1 := none } : Report))
+        = l.map (fun p => ({ p.2 with ts1 := none } : Report))
+    ∧ ((stopLoop faults l n).2.2.2 = true → (stopLoop faults l n).2.1.length < l.length)
+    ∧ ((stopLoop faults l n).2.2.2 = false → (stopLoop faults l n).2.1 = [])
+  | [], n => by simp [stopLoop]
+  | p :: rest, n => by
+      simp only [stopLoop]
+      split
+      · simp
+      · obtain ⟨h1, h2, h3⟩ := stopLoop_split faults rest (n + 1)
+        refine ⟨by simp [h1], fun h => ?_, fun h => h3 h⟩
+        have := h2 h
+        simp only [List.length_cons]; omega
+
+/-- the driver's repeated `stopTestRun()` hands over every record still in the table exactly once, in
+`popitem()` order, however many of those calls raise -/
+theorem stopAll_handed (faults : List Nat) : ∀ (fuel : Nat) (l : List (Key × Report)) (n : Nat), l.length < fuel →
+    (stopAll faults fuel l n).1 = l.map (fun p => ({ p.2 with ts1 := none } : Report))
+  | 0, l, n, h => by omega
+  | fuel + 1, l, n, h => by
+      obtain ⟨h1, h2, h3⟩ := stopLoop_split faults l n
+      simp only [stopAll]
+      split
+      · rename_i hr
+        have := stopAll_handed faults fuel (stopLoop faults l n).2.1 (stopLoop faults l n).2.2.1 (by have := h2 hr; omega)
+        simp only [this, h1]
+      · rename_i hr
+        have hr' : (stopLoop faults l n).2.2.2 = false := by simpa using hr
+        have := h3 hr'
+        simpa [this] using h1
+
+/-- **C10 (exactly once, under consumer faults)**: whatever hand-overs the consumer's callback raises at — at a final
+status (the exception leaves `status()`), or inside `stopTestRun()` (which the driver then calls again) — the
+records handed to it are exactly the reports of the lifetimes, each once and in the same order: the one whose
+hand-over raised is not handed over again at `stopTestRun()`, and the open lifetimes are still all reported. -/
+theorem C10_once_under_faults (faults : List Nat) (es : List Event) : (consumeF faults es).handed = reports es := by
+  obtain ⟨h1, h2, _⟩ := runF_eq faults es { tbl := [], n := 0 } 0
+  simp only [consumeF, h2, h1, ← C10_refines, consume, consumeKeyed, flush, List.map_append, List.map_map]
+  rw [stopAll_handed faults _ _ _ (by simp)]
+  simp [Function.comp_def]
+
+theorem startIds_append (a b : List ExtEv) : startIds (a ++ b) = startIds a ++ startIds b := by
+  induction a with
+  | nil => rfl
+  | cons x a ih => cases x <;> simp [startIds, ih]
+
+theorem startIds_bracket (faults : List Nat) (n : Nat) (r : Report) (h : r.status ≠ .exist) :
+    startIds (if faults.contains n then bracketAborted r else bracket r) = [r.id] := by
+  obtain ⟨o, ho⟩ : ∃ o, specOutcome r.status = some o := by
+    cases hs : r.status <;> simp_all [specOutcome]
+  split <;> simp only [bracket, bracketAborted, statusMap_eq, ho] <;>
+    cases r.ts0 <;> cases r.ts1 <;> simp [optTime, startIds]
+
+theorem startIds_bracketsF (faults : List Nat) : ∀ (rs : List Report) (n : Nat), (∀ r ∈ rs, r.status ≠ .exist) →
+    startIds (bracketsF faults n rs) = rs.map (·.id)
+  | [], _, _ => rfl
+  | r :: rs, n, h => by
+      simp only [bracketsF, startIds_append, startIds_bracket faults n r (h r (by simp)),
+        startIds_bracketsF faults rs (n + 1) (fun r' hr' => h r' (by simp [hr'])), List.map_cons, List.singleton_append]
+
+theorem bracketsF_nofault (faults : List Nat) : ∀ (rs : List Report) (n : Nat),
+    (∀ k ∈ faults, k < n ∨ n + rs.length ≤ k) → bracketsF faults n rs = (rs.map bracket).flatten
+  | [], _, _ => rfl
+  | r :: rs, n, h => by
+      have hn : faults.contains n = false := by
+        simp only [List.contains_eq_mem, decide_eq_false_iff_not]
+        intro hm
+        rcases h n hm with h1 | h1
+        · omega
+        · simp only [List.length_cons] at h1; omega
+      simp only [bracketsF, hn, Bool.false_eq_true, if_false, List.map_cons, List.flatten_cons]
+      rw [bracketsF_nofault faults rs (n + 1)]
+      intro k hk
+      rcases h k hk with h1 | h1
+      · exact Or.inl (by omega)
+      · simp only [List.length_cons] at h1; exact Or.inr (by omega)
+
 /-! ## headline: the executable spec holds of the model's trace, for every input -/
-theorem perRun_model (c : List Event → RunTrace → Bool) (hc : ∀ es, c es (modelRun es) = true) (i : Input) :
+theorem perRun_model (c : Run → RunTrace → Bool) (hc : ∀ r, c r (modelRun r) = true) (i : Input) :
     perRun c i (model i) = true := by
   simp only [perRun, model, List.length_map, beq_self_eq_true, Bool.true_and]
   generalize i.runs = runs
@@ -762,38 +870,50 @@ theorem consume_status (es : List Event) : ∀ r ∈ consume (es.filter fun e =>
 
 theorem holds_model (i : Input) : holds i (model i) = true := by
   simp only [holds, clauses, List.all_cons, List.all_nil, Bool.and_true, Bool.and_eq_true]
-  refine ⟨?_, ?_, ?_, ?_, ?_, ?_⟩
-  · exact perRun_model _ (fun es => by simp [rDict, modelRun, C10_refines]) i
-  · exact perRun_model _ (fun es => by
+  refine ⟨?_, ?_, ?_, ?_, ?_, ?_, ?_⟩
+  · exact perRun_model _ (fun r => by simp [rDict, modelRun, C10_once_under_faults]) i
+  · exact perRun_model _ (fun r => by
       simp [rTestsRun, modelRun, (summarise_spec _).1, C10_refines]) i
-  · exact perRun_model _ (fun es => by
-      obtain ⟨_, _, _, h4, h5, h6, _⟩ := summarise_spec (reports es)
+  · exact perRun_model _ (fun r => by
+      obtain ⟨_, _, _, h4, h5, h6, _⟩ := summarise_spec (reports r.events)
       simp [rBuckets, modelRun, h4, h5, h6, C10_refines]) i
-  · exact perRun_model _ (fun es => by
-      obtain ⟨_, h2, h3, _⟩ := summarise_spec (reports es)
+  · exact perRun_model _ (fun r => by
+      obtain ⟨_, h2, h3, _⟩ := summarise_spec (reports r.events)
       simp [rErrors, modelRun, h2, h3, C10_refines]) i
-  · exact perRun_model _ (fun es => by
-      obtain ⟨_, _, _, _, _, _, h7⟩ := summarise_spec (reports es)
+  · exact perRun_model _ (fun r => by
+      obtain ⟨_, _, _, _, _, _, h7⟩ := summarise_spec (reports r.events)
       simp only [rVerdict, modelRun, C10_refines, h7, Bool.or_eq_true, Bool.not_eq_true',
         List.any_eq_false, List.isEmpty_eq_false_iff]
-      by_cases hany : ∃ r ∈ reports es, failedOrIncomplete r.status = true
+      by_cases hany : ∃ x ∈ reports r.events, failedOrIncomplete x.status = true
       · right
-        obtain ⟨r, hr, hf⟩ := hany
+        obtain ⟨x, hx, hf⟩ := hany
         rw [failed_iff_bucket] at hf
         intro hnil
-        have : r.id ∈ idsWith (reports es) .errors :=
-          List.mem_map.mpr ⟨r, List.mem_filter.mpr ⟨hr, hf⟩, rfl⟩
+        have : x.id ∈ idsWith (reports r.events) .errors :=
+          List.mem_map.mpr ⟨x, List.mem_filter.mpr ⟨hx, hf⟩, rfl⟩
         rw [hnil] at this
         simp at this
       · left
-        intro r hr
-        simpa using fun hf => hany ⟨r, hr, hf⟩) i
-  · exact perRun_model _ (fun es => by
-      simp only [rExtended, modelRun, toExtended, body_wrap]
-      obtain ⟨seen, h1, h2⟩ := interp_brackets _ (consume_status es) none
-      have hh : ({} : ISt) = { gtags := [], time := none, test := none, got := none } := rfl
-      rw [hh, h1]
-      simpa [C10_refines] using h2) i
+        intro x hx
+        simpa using fun hf => hany ⟨x, hx, hf⟩) i
+  · exact perRun_model _ (fun r => by
+      have hst := consume_status r.events
+      rw [C10_refines] at hst
+      simp only [rExtended, modelRun, toExtendedF, C10_once_under_faults, Bool.and_eq_true, beq_iff_eq,
+        Bool.or_eq_true]
+      refine ⟨by simp [startIds_append, startIds, startIds_bracketsF _ _ _ hst], ?_⟩
+      by_cases hf : (r.faults.any fun k => decide (k < (reports (r.events.filter fun e => e.status != some .exist)).length)) = true
+      · exact Or.inl hf
+      · right
+        rw [bracketsF_nofault r.faults _ 0 (fun k hk => by
+          simp only [List.any_eq_true, not_exists, not_and, decide_eq_true_eq] at hf
+          exact Or.inr (by have := hf k hk; omega))]
+        simp only [body_wrap]
+        obtain ⟨seen, h1, h2⟩ := interp_brackets _ hst none
+        have hh : ({} : ISt) = { gtags := [], time := none, test := none, got := none } := rfl
+        rw [hh, h1]
+        exact h2) i
+  · exact perRun_model _ (fun r => by simp [rReal, modelRun, C10_refines]) i
 
 
 /-! ## per key: every lifetime exactly once -/
@@ -1016,5 +1136,22 @@ example : consume [e 0 (some .inprogress) 1, f 0 [65], e 1 (some .inprogress) 2,
   decide
 example : (summarise (consume [e 0 (some .inprogress) 1, e 1 (some .skip) 2])).wasSuccessful = false := by decide
 example : (closedOf [] [e 0 (some .fail) 3, e 0 none 4, e 0 (some .success) 5]).length = 2 := by decide
+
+
+/-! ### consumer faults: non-vacuity and sharpness -/
+/-- the callback raises at the hand-over of test 0's final status (call number 1) and again inside `stopTestRun()`
+(hand-over 2, of the open test 1; the one of test 2 before it went through): three reports, each once -/
+example : consumeF [0, 2] [e 0 (some .inprogress) 1, e 0 (some .success) 2, e 1 (some .inprogress) 3, e 2 (some .inprogress) 4]
+    = { handed := [ { id := 0, tags := [], details := [], status := .success, ts0 := some (.t 1), ts1 := some (.t 2) },
+                    { id := 2, tags := [], details := [], status := .inprogress, ts0 := some (.t 4), ts1 := none },
+                    { id := 1, tags := [], details := [], status := .inprogress, ts0 := some (.t 3), ts1 := none } ]
+        raisedAt := [1], stopRaises := 1 } := by decide
+/-- the spec is sharp: a consumer that keeps the record in the table while the callback runs reports the test a second
+time at `stopTestRun()` (as if it had hung) when the callback raised — rejected by the `reports` clause -/
+example :
+    let r : Run := { events := [e 0 (some .success) 2], faults := [0] }
+    let t := modelRun r
+    rDict r { t with dict := t.dict ++ [{ id := 0, tags := [], details := [], status := .success, ts0 := some (.t 2), ts1 := none }] }
+      = false := by decide
 
 end TTV.Props.C10
